@@ -53,9 +53,13 @@ Lemma table_ex_wf : table_wf table_ex = true. Proof. reflexivity. Qed.
 (* ---- registry view *)
 Example ex_view_sizes : length v1 = 5%nat /\ length v2 = 1%nat /\ count_regs (run ops_ex) 1 = 6.
 Proof. vm_compute. auto. Qed.
-Example ex_view_live : validated_live ops_ex 1 idA.
-Proof. exists [Track 1 idA rA], rA. eexists. split; [reflexivity|]. intros op H.
-  repeat (destruct H as [<-|H]; [discriminate|]). destruct H. Qed.
+Example ex_view_live : key_state ops_ex 1 idA = Some (1, true) /\ validated_live ops_ex 1 idA.
+Proof. split; [|exists 1]; vm_compute; reflexivity. Qed.
+(* a Validate by another object than the stored one validates nothing *)
+Example ex_validate_foreign_object :
+  key_state [Track 1 idA rA; Validate 1 idA rA2] 1 idA = Some (1, false) /\
+  get_regs (run [Track 1 idA rA; Validate 1 idA rA2]) 1 = [].
+Proof. vm_compute. auto. Qed.
 Example ex_view_expired_not_visible : lookup idD v1 = None /\ lookup idC v1 = None /\ lookup idD v2 <> None.
 Proof. vm_compute. repeat split; discriminate. Qed.
 
@@ -63,11 +67,11 @@ Example ex_not_live :
   ~ validated_live ops_ex 1 idD /\ ~ validated_live ops_ex 1 idC /\ ~ validated_live ops_ex 2 idA /\
   validated_live ops_ex 2 idD /\ validated_live ops_ex 1 minB.
 Proof.
-  rewrite !C02_validated_live_decidable. vm_compute. repeat split; try discriminate; reflexivity.
+  unfold validated_live. vm_compute. repeat split; try (intros [n H]; discriminate H); eexists; reflexivity.
 Qed.
 Example ex_never_found_applies : forall r c, wrap_min (get_regs (run ops_ex) 1) (idD ++ [1]) <> Found r c.
 Proof.
-  apply C02_not_registered_never_found_min. rewrite C02_validated_live_decidable. vm_compute. discriminate.
+  apply C02_not_registered_never_found_min. unfold validated_live. vm_compute. intros [n H]. discriminate H.
 Qed.
 
 (* ---- min: genuine, other phantom, unvalidated, expired, truncated, one byte altered *)
